@@ -90,6 +90,12 @@ def intList (value : List Char) : Py.R (List Int) := (splitOnChar ',' value).map
 
 def isSignDigit (c : Char) : Bool := c == '+' || c == '-' || isDigit c
 
+/-- `weekdays[k](n)` (`_common.weekday.__call__` / `__init__`, hand model): the weekday `k` with ordinal `n`; `n == 0` is a ValueError -/
+def weekdayCall (k : Option Int) (n : Option Int) : Py.R WDay :=
+  match k with
+  | none => .error .KeyError                       -- `self._weekday_map[w]`
+  | some k => if n == some 0 then .error .ValueError else .ok (k, n)
+
 /-- one BYDAY item: `TH(+1)` or `+1TH` / `TH`; errors are KeyError/ValueError (both → ValueError upstream) -/
 def parseWDay (wday : List Char) : Py.R WDay :=
   if wday.contains '(' then
